@@ -95,6 +95,13 @@ class EngineProxy:
         return r
 
 
+CUR = {'model': None}  # the name the model currently has (rename operations change it)
+
+
+def cur_model(sess):
+    return CUR['model'] if CUR['model'] is not None else sess['model']
+
+
 def build(sess, init=None):
     """A new BIOGEME object = what a new process would construct."""
     names = sess['names']  # in the order chosen by the harness (sorted)
@@ -118,7 +125,7 @@ def build(sess, init=None):
         d0 = betas[0] - 0.1
         ll = ll - d0 / (d0 * Variable('c1'))
     B = bio.BIOGEME(d, ll)
-    B.modelName = sess['model']
+    B.modelName = cur_model(sess)
     B.save_iterations = bool(sess['save'])
     B.generate_html = False
     B.generate_pickle = False
@@ -128,11 +135,13 @@ def build(sess, init=None):
 
 
 def snap(B, sess):
-    fn = '__' + sess['model'] + '.iter'
+    fn = '__' + cur_model(sess) + '.iter'
+    listing = sorted(x for x in os.listdir('.') if x.endswith('.iter') or x.endswith('.tmp'))
     s = {
         'file': read_bytes(fn),
         'tmp': read_bytes(fn + '.tmp'),
-        'listing': sorted(x for x in os.listdir('.') if x.endswith('.iter') or x.endswith('.tmp')),
+        'listing': listing,
+        'files': {x: read_bytes(x) for x in listing if x.endswith('.iter')},
     }
     if B is not None:
         s['best'] = fhex(getattr(B, 'bestIteration', None))
@@ -257,6 +266,7 @@ def run_call(B, sess, kind, op=None):
 
 
 def run_ops(sess, ops, B=None):
+    CUR['model'] = sess['model']
     out = []
     for op in ops:
         kind = op['op']
@@ -284,12 +294,17 @@ def run_ops(sess, ops, B=None):
                     rec['msg'] = str(e)[:200]
             elif kind == 'delete_file':
                 try:
-                    os.remove('__' + sess['model'] + '.iter')
+                    os.remove('__' + cur_model(sess) + '.iter')
                 except FileNotFoundError:
                     pass
-            elif kind == 'write_file':
-                with open('__' + sess['model'] + '.iter', 'wb') as f:
+            elif kind in ('write_file', 'put_file'):
+                # the user puts an older check point back / chooses another restart point
+                with open('__' + cur_model(sess) + '.iter', 'wb') as f:
                     f.write(op['content'].encode('latin-1'))
+            elif kind == 'rename':
+                # the user renames the model (same object)
+                CUR['model'] = op['name']
+                B.modelName = op['name']
             else:
                 rec['harness_exc'] = f'unknown op {kind}'
         except Exception as e:  # noqa
